@@ -257,6 +257,18 @@ def random_history(rec, rng, adapter, nsteps):
             rec.do(st)
         if rng.random() < 0.02:
             rec.redraw()
+        if i == nsteps // 2:
+            # page copy probe: write on a hidden page, copy it onto the visible one (which must then show it), write on
+            # the source again (which must not show)
+            disp = rec.s.impl.display
+            np_ = disp.mode.num_pages
+            if np_ > 1:
+                v = disp.vpagenum
+                a = (v + 1 + rng.randrange(np_ - 1)) % np_
+                rec.do('SCREEN ,,%d,%d' % (a, v))
+                rec.do('LOCATE %d,%d: PRINT "page%d";' % (rng.randint(1, 20), rng.randint(1, 10), a))
+                rec.do('PCOPY %d,%d' % (a, v))
+                rec.do('PRINT "hidden"')
     rec.crosscheck()
 
 
